@@ -21,8 +21,12 @@ import warnings
 
 import numpy as np
 
-from sim import core, e1, e1prop, e1run
+from sim import core, e1, e1prop, e1run, e2, e2prop, e3
+from sim.containers import parts, meta_of
 from sim.core import yastn
+
+import yastn.tn.mps as mps
+import yastn.tn.fpeps as fpeps
 
 PROP = "C17"
 ENGINE = "E1"
@@ -130,8 +134,15 @@ def observationally_equal(a, b, rng_seed, what):
         sc = max(1.0, float(ca.norm()))
         if ca.get_legs() != cb.get_legs() or not np.allclose(ca.to_numpy(), cb.to_numpy(), rtol=0, atol=1e-12 * sc):
             raise V(PROP, "follow-up-contraction", "%s: contraction of the restored object (all legs but %d) differs" % (what, k))
-    ua, ub = e1.unfuse_all(a), e1.unfuse_all(b)
-    if ua.get_legs() != ub.get_legs() or not np.array_equal(ua.to_numpy(), ub.to_numpy()):
+    def _unf(x):
+        try:
+            return e1.unfuse_all(x)
+        except yastn.YastnError:      # e.g. legs produced by yastn.block() cannot be unfused: then neither can the restored ones
+            return None
+    ua, ub = _unf(a), _unf(b)
+    if (ua is None) != (ub is None):
+        raise V(PROP, "follow-up-unfuse", "%s: complete unfusing works for only one of (source, restored)" % what)
+    if ua is not None and (ua.get_legs() != ub.get_legs() or not np.array_equal(ua.to_numpy(), ub.to_numpy())):
         raise V(PROP, "follow-up-unfuse", "%s: complete unfusing of the restored object differs" % what)
     if abs(float(a.norm()) - float(b.norm())) > 1e-14 * max(1.0, float(a.norm())):
         raise V(PROP, "values", "%s: norm differs" % what)
@@ -313,21 +324,199 @@ class OpSerialReject(e1.Op):
         raise V(PROP, "reject-accepted", "op %d: incompatible %s was accepted instead of being rejected with YastnError" % (rec["id"], k))
 
 
+# ---- containers: MPS/MPO (with/without central block, non-unit factor), PEPS, environments ------------------------------
+
+C_ROUTES = ("method", "function", "split", "numpy", "hdf5", "legacy")
+
+
+def container_roundtrip(x, route, level, cfg):
+    if route == "method":
+        return type(x).from_dict(x.to_dict(level=level))
+    if route == "function":
+        return yastn.from_dict(x.to_dict(level=level))
+    if route == "split":
+        data, meta = yastn.split_data_and_meta(x.to_dict(level=level))
+        return yastn.from_dict(yastn.combine_data_and_meta(data, meta))
+    if route == "numpy":
+        buf = io.BytesIO()
+        np.save(buf, x.to_dict(level=max(level, 1)), allow_pickle=True)
+        buf.seek(0)
+        return yastn.from_dict(np.load(buf, allow_pickle=True).item())
+    if route == "hdf5":       # MPS/MPO only
+        import h5py
+        _H5[0] += 1
+        with h5py.File("mem-%d.h5" % _H5[0], "w", driver="core", backing_store=False) as f:
+            x.save_to_hdf5(f, "state/psi")
+            return mps.load_from_hdf5(cfg, f, "state/psi")
+    if route == "legacy":
+        with warnings.catch_warnings():
+            warnings.simplefilter("ignore")
+            d = x.save_to_dict()
+            if isinstance(x, mps.MpsMpoOBC):
+                return mps.load_from_dict(cfg, d)
+            return fpeps.load_from_dict(cfg, d)
+    raise ValueError(route)
+
+
+def container_equal(task, a, b, route, what, fseed):
+    V = core.Violation
+    if type(a) is not type(b):
+        raise V(PROP, "type", "%s: restored %s from %s" % (what, type(b).__name__, type(a).__name__))
+    materialising = route in ("hdf5", "legacy")      # documented to absorb the central block of an MPS
+    ma, mb = meta_of(a), meta_of(b)
+    if isinstance(a, mps.MpsMpoOBC):
+        da, db = e2.dense_of(task, a), e2.dense_of(task, b)
+        sc = max(1.0, float(np.max(np.abs(da))) if da.size else 1.0)
+        if da.shape != db.shape or not np.allclose(da, db, rtol=0, atol=(1e-13 if materialising else 0.0) * sc):
+            raise V(PROP, "values", "%s: the restored object represents a different state/operator (max deviation %.3e)" % (what, float(np.max(np.abs(da - db))) if da.shape == db.shape else -1))
+        if not materialising:
+            if ma != mb:
+                raise V(PROP, "structure", "%s: N / nr_phys / central-block position / factor / keys differ: %s vs %s" % (what, ma, mb))
+        else:
+            if (a.N, a.nr_phys) != (b.N, b.nr_phys) or b.pC is not None:
+                raise V(PROP, "structure", "%s: N / nr_phys differ or a central block survived a materialising route" % what)
+            if abs(complex(a.factor) - complex(b.factor)) > 1e-14 * max(1.0, abs(complex(a.factor))):
+                raise V(PROP, "structure", "%s: factor %r restored as %r" % (what, a.factor, b.factor))
+        # follow-up behaviour: overlap with the source and virtual legs
+        if a.nr_phys == 1 and a.pC is None and b.pC is None and not e2.has_meta_legs(a):     # (vdot on meta-fused virtual legs: known finding K-C06-meta-product)
+            oa, ob = complex(mps.vdot(a, a)), complex(mps.vdot(a, b))
+            if abs(oa - ob) > 1e-12 * max(1.0, abs(oa)):
+                raise V(PROP, "follow-up-contraction", "%s: <a|a> = %r but <a|restored> = %r" % (what, oa, ob))
+    elif ma != mb:
+        raise V(PROP, "structure", "%s: geometry / type differ: %s vs %s" % (what, ma, mb))
+    pa, pb = parts(a), parts(b)
+    if not (materialising and isinstance(a, mps.MpsMpoOBC) and a.pC is not None):
+        if set(pa) != set(pb):
+            raise V(PROP, "structure", "%s: the restored object holds tensors %s, the source %s" % (what, sorted(pb)[:8], sorted(pa)[:8]))
+        for k in sorted(pa):
+            observationally_equal(pa[k], pb[k], fseed, what + " tensor %s" % k)
+    if isinstance(a, fpeps.Peps) and task.N <= 6:
+        ta, tb = a.to_tensor(), b.to_tensor()
+        if ta.get_legs() != tb.get_legs() or not np.array_equal(ta.to_numpy(), tb.to_numpy()):
+            raise V(PROP, "values", "%s: to_tensor() of the restored PEPS differs" % what)
+    if isinstance(a, (fpeps.EnvCTM, fpeps.EnvBP, fpeps.EnvBoundaryMPS)):
+        O = task.space.table[sorted(task.space.neutral())[-1]]
+        try:
+            va = a.measure_1site(O)
+        except Exception:  # noqa: BLE001  (the source environment is stale: its state was evolved in place after it was built)
+            core.current_world().probes["stale_environment_follow_up_skipped"] += 1
+            return
+        vb = b.measure_1site(O)
+        if set(va) != set(vb) or any(abs(complex(va[k]) - complex(vb[k])) > 1e-12 * max(1.0, abs(complex(va[k]))) for k in va):
+            raise V(PROP, "follow-up-measurement", "%s: measure_1site on the restored environment differs" % what)
+
+
+def container_tags(x):
+    tags = [type(x).__name__]
+    if isinstance(x, mps.MpsMpoOBC):
+        if x.pC is not None:
+            tags.append("central_block")
+        if complex(x.factor) != 1:
+            tags.append("factor")
+    for t in parts(x).values():
+        for tg in state_tags(t):
+            if tg not in tags:
+                tags.append(tg)
+    return tags
+
+
+@e1.register
+class OpContainerSerial(e1.Op):
+    name = "c_serial"
+
+    def gen(self, g):
+        c = [s for s, v in g.task.slots.items() if meta_of(v) is not None and not isinstance(v, fpeps.DoublePepsTensor)]
+        if not c:
+            return None
+        special = [s for s in c if getattr(g.task.slots[s], "pC", None) is not None or complex(getattr(g.task.slots[s], "factor", 1)) != 1]
+        a = g.rng.choice(special) if special and g.rng.random() < 0.7 else g.rng.choice(c)
+        v = g.task.slots[a]
+        routes = [r for r in C_ROUTES if (r != "hdf5" or isinstance(v, mps.MpsMpoOBC))]
+        if getattr(v, "pC", None) is not None:
+            routes += ["hdf5", "hdf5", "legacy", "split"]       # routes that treat the central block specially
+        return {"op": "c_serial", "in": [a], "args": {"route": g.rng.choice(routes), "level": g.rng.choice([0, 1, 2]), "fseed": g.rng.randrange(1 << 30)}}
+
+    def run(self, task, rec, ins):
+        a, ar = ins[0], rec["args"]
+        from props.c15 import snap
+        before = snap(a)
+        b = container_roundtrip(a, ar["route"], ar["level"], task.cfg)
+        if not _generating():
+            tags = container_tags(a)
+            what = "op %d round trip via %s (level %d) of %s" % (rec["id"], ar["route"], ar["level"], tags)
+            if snap(a) != before:
+                raise core.Violation(PROP, "source-modified", what + ": the source changed")
+            container_equal(task, a, b, ar["route"], what, ar["fseed"])
+            w = core.current_world()
+            w.stats["roundtrips"] += 1
+            w.stats["container_roundtrips"] += 1
+            w.stats["roundtrips_nondefault_state"] += 1 if len(tags) > 1 else 0
+            for tg in tags:
+                w.probes["roundtrip_%s_%s" % (ar["route"], tg)] += 1
+            if ar["level"] == 2 or ar["route"] in ("numpy", "hdf5", "legacy"):
+                pa, pb = parts(a), parts(b)
+                for ka, ta in pa.items():
+                    for kb, tb in pb.items():
+                        if ta._data.size and tb._data.size and np.shares_memory(ta._data, tb._data):
+                            raise core.Violation(PROP, "independence", what + ": restored object shares memory with the source (%s / %s)" % (ka, kb))
+        return [b]
+
+    def shadow(self, task, rec, sins, outs, ins=None):
+        return [sins[0].copy() if hasattr(sins[0], "copy") else sins[0]]
+
+
+W_E2 = {"m_random_mps": 3, "m_random_mpo": 2, "m_product_mps": 0.7, "m_generate_mpo": 1, "m_add": 1.5, "m_scal": 2, "m_matmul": 1, "m_unary": 1.5, "m_inplace": 5, "c_serial": 9}
+W_E3 = {"p_init": 1.2, "p_prepare": 0.8, "p_gate": 4, "p_copy": 0.5, "p_add": 1, "p_env": 2.5, "c_serial": 8}
+
+
+def build_container(seed, tier, kind):
+    rng = core.stream(seed, "programs")
+    swarm = core.stream(seed, "swarm")
+    if kind == "E2":
+        case = e2prop.build(seed, tier, PROP, W_E2, nops=(8, 14), Nmax=5, lapack=True)
+        return case
+    fam = rng.choice(["SpinlessFermions", "SpinlessFermions", "Spin12", "SpinfulFermions"])
+    dims = list(rng.choice([(1, 2), (2, 1), (2, 2), (2, 2), (1, 3), (3, 1)] + ([(2, 3), (3, 2)] if fam != "SpinfulFermions" else [])))
+    arm = "disturbed" if swarm.random() < 0.5 else "baseline"
+    cfg = {"family": fam, "sym": rng.choice(e3.FAMILIES3[fam]), "dims": dims, "tree": min(dims) == 1,
+           "tensordot_policy": swarm.choice(e1run.POLICIES) if arm == "disturbed" else "fuse_to_matrix", "default_fusion": "hard"}
+    if dims[0] >= 2 and rng.random() < 0.2:
+        cfg["boundary"] = "cylinder"
+    spec = {"id": 0, "engine": "E3", "config": cfg, "universe": [], "tags": {}}
+    wts = dict(W_E3)
+    if cfg.get("boundary") == "cylinder":
+        wts["p_env"] = 0
+    prog, digs, t = e1run.generate_cold(seed, spec, rng, swarm.randint(7, 12), wts, seed_ops=("p_init",), cache_impl="real")
+    ts = dict(spec)
+    ts["program"] = prog
+    world = {"cache_impl": "real", "maxsize": "default", "lapack": True, "fc": {}}
+    if arm == "disturbed":
+        world = {"cache_impl": swarm.choice(["real", "instrumented"]), "maxsize": swarm.choice(["default", 0, 1, 2, 8]), "lapack": True,
+                 "fc": {"p_lookup": swarm.choice([0.0, 0.02, 0.05]), "lookup_kinds": ["evict", "clear_table", "clear_all", "resize"], "p_lapack": swarm.choice([0.0, 0.2])}}
+    return {"format": 1, "property": PROP, "engine": "E3", "arm": arm, "seed": seed, "world": world, "tasks": [ts],
+            "schedule": [["op", 0, r["id"]] for r in prog], "inner": {}, "mode": "draw", "rejected": getattr(t, "rejected", [])}
+
+
 def after_op(w, task, rec, outs):
     pass
 
 
 def on_exception(w, task, rec, exc):
-    if rec["op"] in ("serial", "serial_meta", "serial_reject"):
+    if rec["op"] in ("serial", "serial_meta", "serial_reject", "c_serial"):
         raise core.Violation(PROP, "exception-where-result-promised", "op %d %s %s raised %s: %s" % (rec["id"], rec["op"], rec["args"], type(exc).__name__, str(exc)[:150]), op=rec["op"])
 
 
 def run_seed(seed, tier):
-    case = e1prop.build(seed, tier, PROP, WEIGHTS, nops=(7, 14), p_disturbed=0.5)
+    kind = core.stream(seed, "object-world").choice(["E1", "E1", "E1", "E2", "E2", "E3"])
+    if kind == "E1":
+        case = e1prop.build(seed, tier, PROP, WEIGHTS, nops=(7, 14), p_disturbed=0.5)
+    else:
+        case = build_container(seed, tier, kind)
     v, w, info = e1prop.simulate(case, True, after_op, on_exception, shadow=True)
     info["checked_outputs"] = (w.stats.get("roundtrips", 0) + w.stats.get("meta_roundtrips", 0)) * 4
     r = e1prop.result(case, v, w, info, seed)
     r["nontrivial"] = bool(w.stats.get("roundtrips_nondefault_state", 0) > 0 and (case["arm"] == "baseline" or r["disturbed_effective"]))
+    r["world_kind"] = kind
     return r
 
 
@@ -336,4 +525,10 @@ def replay(case):
     return v
 
 
-extra_evidence = e1prop.extra_evidence
+def extra_evidence(results):
+    out = e1prop.extra_evidence(results)
+    kinds = {}
+    for r in results:
+        kinds[r.get("world_kind", "E1")] = kinds.get(r.get("world_kind", "E1"), 0) + 1
+    out["runs_by_object_world"] = {"tensors (E1)": kinds.get("E1", 0), "MPS/MPO (E2)": kinds.get("E2", 0), "PEPS and environments (E3)": kinds.get("E3", 0)}
+    return out
